@@ -1,24 +1,34 @@
 ----------------------------- MODULE C04_WJudge -----------------------------
 (***************************************************************************)
 (* Stage (3) for the traversal half of C04: trace validation.  Every       *)
-(* record is one run of an instrumented stock traversal on one tree        *)
-(* (harness/c04drv.py, drive_walk): the list of events it logged, how the  *)
-(* call ended, and what it returned.  The judge steps the stack acceptor   *)
-(* of C04_Walk along the events - one TLC step per event; the event must   *)
-(* be enabled in the acceptor state reached so far and must carry exactly  *)
-(* the extra arguments of the call - and at the end applies the outcome    *)
-(* rule (accepted and finished, or reported by raising) and the result     *)
-(* contracts.  The step relation is total: the first guard a trace         *)
-(* contradicts becomes its verdict; every trace gets exactly one verdict.  *)
+(* record is one instrumented stock traversal (ONE mapper instance) on one *)
+(* tree and a history of calls on it (harness/c04drv.py, drive_walk): per  *)
+(* call the node the mapper was applied to, the extra arguments, the list  *)
+(* of events it logged, how the call ended, and what it returned.  The     *)
+(* judge steps the stack acceptor of C04_Walk along the events - one TLC   *)
+(* step per event; the event must be enabled in the acceptor state reached *)
+(* so far and must carry exactly the extra arguments of THIS call - and at *)
+(* the end of each call applies the outcome rule (accepted and finished,   *)
+(* or reported by raising) and the result contracts.  A memoising variant  *)
+(* may leave out an occurrence that is Python-equal to one it has finished *)
+(* in this call or in an earlier call of the history that was made with    *)
+(* the same positional and keyword arguments (memo: class x arguments);    *)
+(* nothing else may be left out.  The step relation is total: the first    *)
+(* guard a trace contradicts becomes its verdict; every trace gets exactly *)
+(* one verdict.                                                            *)
 (*                                                                         *)
 (* Which logged events move the acceptor depends on the family:            *)
 (*   walk, cwalk       visit / post_visit       (handler entry/exit noted) *)
 (*   ident .. ccoll    handler entry / exit     (as Visit(n, TRUE) / Post) *)
 (*   cbident           callback entry / exit    (fallback handlers noted)  *)
-(* "noted" events only have their arguments checked.                       *)
+(* "noted" events only have their arguments checked - and, for an instance *)
+(* of a user node class, that the handler entered is the one the dispatch  *)
+(* rule names (C04_UCls).  A traversal that returns normally although the  *)
+(* tree holds an instance of a user node class for which neither the class *)
+(* nor an ancestor has a handler was silently skipping it.                 *)
 (***************************************************************************)
-EXTENDS C04_Walk, Json, IOUtils
-VARIABLES tid, l, st, deleg, tab, cls, kinds, verd
+EXTENDS C04_Walk, C04_UCls, Json, IOUtils
+VARIABLES tid, ci, l, st, deleg, memo, tab, cls, kinds, utab, verd
 
 Recs == ndJsonDeserialize(IOEnv.TRACE_FILE)
 
@@ -41,34 +51,77 @@ FirstPendingPos(s) == IF Len(s.stack) = 0 \/ TopOf(s).pend = {} THEN 0
 Verd(v, ev, who, p) == [v |-> v, ev |-> ev, who |-> who, pos |-> p, at |-> l]
 NoVerd == [v |-> ""]
 
+\* ---- histories: the call being judged, what the mapper may remember for it
+CallOf(rec) == rec.calls[ci]
+\* the classes of the occurrences finished in earlier calls made with the same arguments
+ExtFor(call) == { m[1] : m \in { q \in memo : q[2] = call.a /\ q[3] = call.k } }
+\* how the arguments of call number c relate to those of the earlier calls (attribution only)
+Rel(rec, c) ==
+    LET me == rec.calls[c]
+        KwNames(k) == [i \in 1..Len(k) |-> k[i].k]
+        prev == 1..(c - 1)
+    IN IF c = 1 THEN "first-call"
+       ELSE IF \E j \in prev : rec.calls[j].a = me.a /\ rec.calls[j].k = me.k THEN "arguments-seen-before"
+       ELSE IF \E j \in prev : rec.calls[j].a = me.a /\ KwNames(rec.calls[j].k) = KwNames(me.k)
+            THEN "keyword-values-differ"
+       ELSE IF \E j \in prev : rec.calls[j].k = me.k THEN "positional-arguments-differ"
+       ELSE "other-arguments"
+\* the subtree the call was applied to (occurrence numbers are those of the whole tree)
+SubOf(rec, call) == Pre(rec.tree)[call.n]
+\* two model nodes that CPython makes one object (the empty tuple, equal small constants,
+\* equal strings): the driver cannot tell their occurrences apart
+Ambiguous(tree) ==
+    LET p == Pre(tree)
+        Shared(e) == \/ e.t = "Const" \/ e.t = "Str" \/ (e.t = "Tup" /\ Len(e.c) = 0)
+    IN \E i, j \in 1..Len(p) : i < j /\ Shared(p[i]) /\ ZeroIds(p[i]) = ZeroIds(p[j])
+
+\* ---- user node classes: the handler the dispatch rule names for node n ("" not a user node)
+UserImpl(rec) == SeqToSet(rec.cfg.impl)
+UserTargetAt(rec, n) ==
+    IF n \notin 1..Len(utab) \/ utab[n] = 0 THEN ""
+    ELSE IF rec.cfg.fam = "cbident" THEN "unsupported"     \* no place for user handlers
+    ELSE UTarget(utab[n], UserImpl(rec))
+\* the user node occurrences below node r that no handler is named for
+UnhandledUsers(rec, r) ==
+    { n \in {r} \cup DescOf(tab, r) : kinds[n] = "ULeaf" \/ UserTargetAt(rec, n) = "unsupported" }
+UserBase(n) == IF kinds[n] = "ULeaf" THEN "Expression" ELSE UBase(utab[n])
+
 \* initial states are computed sequentially: keep them cheap, the first step of every trace
 \* (l = 0) loads the tables of its tree
 Init == /\ tid \in 1..Len(Recs)
-        /\ l = 0 /\ st = StInit /\ deleg = 0
-        /\ tab = << >> /\ cls = << >> /\ kinds = << >> /\ verd = NoVerd
+        /\ l = 0 /\ ci = 1 /\ st = StInit /\ deleg = 0 /\ memo = {}
+        /\ tab = << >> /\ cls = << >> /\ kinds = << >> /\ utab = << >> /\ verd = NoVerd
 Load == /\ l = 0 /\ l' = 1
         /\ tab' = Tab(Recs[tid].tree) /\ cls' = ClsTab(Recs[tid].tree)
-        /\ kinds' = KindTab(Recs[tid].tree)
-        \* a constructor that normalised the generated tree away: the case says nothing
-        /\ verd' = IF Recs[tid].built = ZeroIds(Recs[tid].tree) THEN NoVerd ELSE [v |-> "SKIP"]
-        /\ UNCHANGED << tid, st, deleg >>
+        /\ kinds' = KindTab(Recs[tid].tree) /\ utab' = UTab(Recs[tid].tree)
+        \* a constructor that normalised the generated tree away, or two occurrences that are one
+        \* object: the case says nothing
+        /\ verd' = IF Recs[tid].built = ZeroIds(Recs[tid].tree) /\ ~Ambiguous(Recs[tid].tree)
+                       /\ Len(Recs[tid].calls) > 0
+                    THEN NoVerd ELSE [v |-> "SKIP"]
+        /\ UNCHANGED << tid, ci, st, deleg, memo >>
 
 \* ---- one recorded event
 StepVerdict(rec, ev) ==   \* NoVerd when the event is allowed
     LET fam == rec.cfg.fam
+        call == CallOf(rec)
         role == Role(fam, ev.e)
         delegated == role = "visit" /\ fam \notin {"walk", "cwalk"} /\ Len(st.stack) > 0
                      /\ TopOf(st).n = ev.n /\ ~TopOf(st).opt
         undeleg == role = "post" /\ deleg > 0 /\ Len(st.stack) > 0 /\ TopOf(st).n = ev.n
-    IN IF ev.a # rec.cfg.a \/ ev.k # rec.cfg.k
+        ut == IF ev.e = "enter" THEN UserTargetAt(rec, ev.n) ELSE ""
+    IN IF ev.a # call.a \/ ev.k # call.k
        THEN Verd("args", ev.e, IF ev.e \in {"enter", "cb-enter"} THEN ParentKind(ev.n) ELSE KindOf(ev.n), 0)
+       \* dispatch inside a traversal: the handler entered for an instance of a user node class
+       ELSE IF ut \notin {"", "unsupported"} /\ ("h" \notin DOMAIN ev \/ ev.h # ut)
+       THEN Verd("handler", ev.e, UserBase(ev.n), 0)
        ELSE IF role = "note" \/ delegated \/ undeleg THEN NoVerd
        ELSE IF role = "visit"
-       THEN LET w == VisitWhy(tab, st, ev.n) IN
+       THEN LET w == VisitWhyR(tab, st, ev.n, call.n) IN
             IF w = "" THEN NoVerd
             ELSE Verd(w, ev.e, TopKind(DropOpt(st)),      \* blamed on the node in charge; pos = its arity
                       IF Len(DropOpt(st).stack) = 0 THEN 0 ELSE Len(tab[TopOf(DropOpt(st)).n]))
-       ELSE LET w == PostWhy(cls, Cached(fam), st, ev.n) IN
+       ELSE LET w == PostWhyX(cls, Cached(fam), st, ev.n, ExtFor(call)) IN
             IF w = "" THEN NoVerd
             ELSE Verd(w, ev.e, KindOf(ev.n), FirstPendingPos(PostView(st, ev.n)))
 StepState(rec, ev) ==
@@ -93,44 +146,65 @@ Unhandled(fam) ==
       [] fam \in {"comb", "ccomb"} -> never \cup {"Slice", "Subst", "Deriv", "Wild", "FunctionSymbol", "NaN"}
       [] fam \in {"coll", "ccoll"} -> never \cup {"Slice", "Subst", "Deriv", "NaN"}
       [] fam = "cbident" -> never \cup {"CallKw", "Slice", "Subst", "Deriv", "Min", "Max", "Wild", "NaN", "MV"}
-AllHandled(rec) ==
-    /\ \A i \in 1..Len(kinds) : kinds[i] \notin Unhandled(rec.cfg.fam)
-    /\ ~Contains(rec.tree, IsInvalidForeign)
-Drift(rec, how) == IF how = "finished" THEN rec.cfg.F = << >> /\ ~AllHandled(rec) ELSE AllHandled(rec)
+AllHandled(rec, sub) ==
+    /\ \A i \in {sub.id} \cup DescOf(tab, sub.id) : kinds[i] \notin Unhandled(rec.cfg.fam)
+    /\ UnhandledUsers(rec, sub.id) = {}
+    /\ ~Contains(sub, IsInvalidForeign)
+Drift(rec, sub, how) == IF how = "finished" THEN rec.cfg.F = << >> /\ ~AllHandled(rec, sub)
+                        ELSE AllHandled(rec, sub)
 \* the node an exception is blamed on: the root when nothing ran, a pending container child
 \* that cannot be a cache key when there is one, else the node being handled
 FirstKindIn(tree, K) == LET p == Pre(tree)  is == { i \in 1..Len(p) : p[i].t \in K } IN
                         IF is = {} THEN "" ELSE p[MinOf(is)].t
-Culprit(rec, s) ==
+Culprit(rec, sub, s) ==
     IF st.seen = {}
-    THEN (IF Cached(rec.cfg.fam) /\ FirstKindIn(rec.tree, MutableKinds) # ""
-          THEN FirstKindIn(rec.tree, MutableKinds) ELSE KindOf(1))
+    THEN (IF Cached(rec.cfg.fam) /\ FirstKindIn(sub, MutableKinds) # ""
+          THEN FirstKindIn(sub, MutableKinds) ELSE KindOf(sub.id))
     ELSE IF Len(s.stack) = 0 THEN "ROOT"
     ELSE LET mp == { c \in TopOf(s).pend : kinds[c] \in MutableKinds } IN
          IF mp # {} THEN kinds[MinOf(mp)] ELSE TopKind(s)
 HasInvalid(tree) == Contains(tree, IsInvalidForeign)
-ExitEvents(rec) == SelectSeq(rec.evs, LAMBDA ev : ev.e = "exit")
+ExitEvents(call) == SelectSeq(call.evs, LAMBDA ev : ev.e = "exit")
+\* combine / collector results: the leaf handlers return (occurrence, arguments received)
+ResIds(call) == { call.res[i].n : i \in 1..Len(call.res) }
+StaleArgs(call) == \E i \in 1..Len(call.res) : call.res[i].a # call.a \/ call.res[i].k # call.k
+\* (for a memoising variant a contribution may come from an equal occurrence anywhere in the
+\* tree, remembered from an earlier call)
+CombineWhyX(sub, cached, got) ==
+    LET want == ContributingLeaves(sub) IN
+    IF ~cached THEN CombineWhy(sub, cls, FALSE, got)
+    ELSE IF ~(\A j \in got : j \in 1..Len(cls) /\ \E i \in want : cls[i] = cls[j]) THEN "combine-extra"
+    ELSE IF \A i \in want : \E j \in got : cls[j] = cls[i] THEN "" ELSE "combine-missing"
 FinalVerdict(rec) ==
     LET fam == rec.cfg.fam
+        call == CallOf(rec)
+        sub == SubOf(rec, call)
+        ext == ExtFor(call)
         R == SeqToSet(rec.cfg.R)
+        sfx == ArgSuffix(call.a, call.k)
         s == DropOpt(st)
-    IN IF rec.out.r = "err"
-       THEN IF rec.out.exc \in {"UnsupportedExpressionError", "NotImplementedError"}
-            THEN [v |-> "OK", how |-> "reported"]
-            ELSE IF HasInvalid(rec.tree) THEN [v |-> "OK", how |-> "rejected"]
+        OK(how) == [v |-> "OK", how |-> how, drift |-> Drift(rec, sub, how)]
+    IN IF call.out.r = "err"
+       THEN IF call.out.exc \in {"UnsupportedExpressionError", "NotImplementedError"}
+            THEN OK("reported")
+            ELSE IF HasInvalid(sub) THEN OK("rejected")
             \* a MultiVector is not an expression: a mapper without a handler for it rejects it
-            ELSE IF rec.out.exc = "ValueError" /\ FirstKindIn(rec.tree, {"MV"}) # ""
-            THEN [v |-> "OK", how |-> "rejected"]
-            ELSE [v |-> "error", ev |-> rec.out.exc, who |-> Culprit(rec, s), pos |-> 0, at |-> l]
-       ELSE LET w == EndWhy(cls, Cached(fam), st) IN
+            ELSE IF call.out.exc = "ValueError" /\ FirstKindIn(sub, {"MV"}) # ""
+            THEN OK("rejected")
+            ELSE [v |-> "error", ev |-> call.out.exc, who |-> Culprit(rec, sub, s), pos |-> 0, at |-> l]
+       ELSE LET w == EndWhyX(cls, Cached(fam), st, call.n, ext) IN
             IF w # "" THEN Verd(w, "return", TopKind(s), FirstPendingPos(s))
+            \* a node type the traversal does not handle has to be reported by raising
+            ELSE IF rec.cfg.F = << >> /\ UnhandledUsers(rec, call.n) # {}
+            THEN [v |-> "silently-skipped", ev |-> "return",
+                  who |-> UserBase(MinOf(UnhandledUsers(rec, call.n))), pos |-> 0, at |-> l]
             ELSE IF IsIdentFam(fam)
-            THEN IF rec.res.t = "Unser" THEN [v |-> "SKIP"]
-                 ELSE IF ~IdentityTreeOK(rec.tree, R, rec.res)
-                 THEN LET d == FirstDiff(Norm(ZeroIds(Rename(rec.tree, R))), Norm(rec.res)) IN
+            THEN IF call.res.t = "Unser" THEN [v |-> "SKIP"]
+                 ELSE IF ~IdentityTreeOKS(sub, R, sfx, call.res)
+                 THEN LET d == FirstDiff(Norm(ZeroIds(RenameS(sub, R, sfx))), Norm(call.res)) IN
                       [v |-> "tree", ev |-> d.why, who |-> d.who, pos |-> d.pos, at |-> l]
                  ELSE LET p == Pre(rec.tree)
-                          xs == ExitEvents(rec)
+                          xs == ExitEvents(call)
                           und == Cached(fam) /\ HasTwins(rec.tree)
                           bad == { i \in 1..Len(xs) : xs[i].n \in 1..Len(p)
                                                       /\ SameWhy(p[xs[i].n], R, xs[i].same, und) # "" }
@@ -138,39 +212,51 @@ FinalVerdict(rec) ==
                          THEN LET i == MinOf(bad) IN
                               [v |-> SameWhy(p[xs[i].n], R, xs[i].same, und), ev |-> "exit",
                                who |-> KindOf(xs[i].n), pos |-> 0, at |-> l]
-                         ELSE IF rec.eq = 0 /\ ~ChangedBelow(rec.tree, R)
-                         THEN [v |-> "not-equal", ev |-> "return", who |-> KindOf(1), pos |-> 0, at |-> l]
-                         ELSE IF rec.eq = 1 /\ ChangedBelow(rec.tree, R)
-                         THEN [v |-> "equal-but-changed", ev |-> "return", who |-> KindOf(1), pos |-> 0, at |-> l]
-                         ELSE [v |-> "OK", how |-> "finished"]
+                         ELSE IF call.eq = 0 /\ ~ChangedBelow(sub, R)
+                         THEN [v |-> "not-equal", ev |-> "return", who |-> KindOf(call.n), pos |-> 0, at |-> l]
+                         ELSE IF call.eq = 1 /\ ChangedBelow(sub, R)
+                         THEN [v |-> "equal-but-changed", ev |-> "return", who |-> KindOf(call.n), pos |-> 0, at |-> l]
+                         ELSE OK("finished")
             ELSE IF IsCombFam(fam)
-            THEN IF ~rec.resok THEN [v |-> "combine-result-type", ev |-> "return", who |-> KindOf(1), pos |-> 0, at |-> l]
-                 ELSE LET cw == CombineWhy(rec.tree, cls, Cached(fam), SeqToSet(rec.res)) IN
-                      IF cw # "" THEN [v |-> cw, ev |-> "return", who |-> KindOf(1), pos |-> 0, at |-> l]
-                      ELSE [v |-> "OK", how |-> "finished"]
-            ELSE [v |-> "OK", how |-> "finished"]
+            THEN IF ~call.resok THEN [v |-> "combine-result-type", ev |-> "return", who |-> KindOf(call.n), pos |-> 0, at |-> l]
+                 ELSE IF StaleArgs(call)
+                 THEN [v |-> "combine-stale-arguments", ev |-> "return", who |-> KindOf(call.n), pos |-> 0, at |-> l]
+                 ELSE LET cw == CombineWhyX(sub, Cached(fam), ResIds(call)) IN
+                      IF cw # "" THEN [v |-> cw, ev |-> "return", who |-> KindOf(call.n), pos |-> 0, at |-> l]
+                      ELSE OK("finished")
+            ELSE OK("finished")
 
+\* what a memoising mapper remembers after a call: every occurrence it finished, under the
+\* arguments of that call
+Remembered(rec) ==
+    IF Cached(rec.cfg.fam)
+    THEN memo \cup { << cls[m], CallOf(rec).a, CallOf(rec).k >> : m \in st.done }
+    ELSE memo
 Step ==
     /\ verd.v = "" /\ l >= 1
-    /\ LET rec == Recs[tid] IN
-       IF l <= Len(rec.evs)
-       THEN LET ev == rec.evs[l]  sv == StepVerdict(rec, ev) IN
+    /\ LET rec == Recs[tid]  call == CallOf(rec) IN
+       IF l <= Len(call.evs)
+       THEN LET ev == call.evs[l]  sv == StepVerdict(rec, ev) IN
             IF sv.v = ""
             THEN /\ st' = StepState(rec, ev)[1] /\ deleg' = StepState(rec, ev)[2]
-                 /\ l' = l + 1 /\ UNCHANGED verd
-            ELSE /\ verd' = sv /\ UNCHANGED << st, deleg, l >>
-       ELSE /\ verd' = FinalVerdict(rec) /\ UNCHANGED << st, deleg, l >>
-    /\ UNCHANGED << tid, tab, cls, kinds >>
+                 /\ l' = l + 1 /\ UNCHANGED << verd, ci, memo >>
+            ELSE /\ verd' = [call |-> ci, rel |-> Rel(rec, ci)] @@ sv /\ UNCHANGED << st, deleg, l, ci, memo >>
+       ELSE LET fv == FinalVerdict(rec) IN
+            IF fv.v = "OK" /\ ci < Len(rec.calls)
+            THEN \* the next call on the same mapper instance
+                 /\ ci' = ci + 1 /\ l' = 1 /\ st' = StInit /\ deleg' = 0
+                 /\ memo' = Remembered(rec) /\ UNCHANGED verd
+            ELSE /\ verd' = [call |-> ci, rel |-> Rel(rec, ci)] @@ fv
+                 /\ UNCHANGED << st, deleg, l, ci, memo >>
+    /\ UNCHANGED << tid, tab, cls, kinds, utab >>
 
 Next == Load \/ Step
 
 \* the acceptor's structural invariant holds in every state the judge goes through
 JudgeInv ==
-    /\ Len(st.stack) > 0 => st.stack[1].n = 1
+    /\ Len(st.stack) > 0 => st.stack[1].n = CallOf(Recs[tid]).n
     /\ \A i \in 2..Len(st.stack) : st.stack[i].n \in SeqToSet(tab[st.stack[i - 1].n])
     /\ \A i \in 1..Len(st.stack) : st.stack[i].pend \cap st.seen = {}
 
-Report == verd.v # "" =>
-    PrintT(ToJson([id |-> Recs[tid].id] @@
-                  (IF verd.v = "OK" THEN [drift |-> Drift(Recs[tid], verd.how)] @@ verd ELSE verd)))
+Report == verd.v # "" => PrintT(ToJson([id |-> Recs[tid].id] @@ verd))
 =============================================================================
